@@ -5,6 +5,22 @@ import json, os, subprocess
 ROOT = os.path.dirname(os.path.dirname(os.path.abspath(__file__)))
 
 CLAIMED = {
+ "C09": dict(
+   text="Theorems in Coq about executable models of the three classifiers (container: convertReply;convertReplyResult, namespace runner: the "
+        "wait-loop body, ptrace runner: Tracer.trace loop body with ptraceHandle.handle) and of Go's WaitStatus decoding: for every exit code "
+        "0..255 and every signal 1..126 (with and without the core bit) each classifier returns the README table's status and exit value "
+        "(C09_*_table_exit / _signal), a fatal signal reaching a traced task through a signal-delivery stop is handed back to it "
+        "(C09_ptrace_signal_delivery, SIGTRAP included since the fix), deaths of secondary tasks never end the run (C09_children_irrelevant), "
+        "Runner Error always carries an explanation (three theorems).  Tie on every run: all 65536 low wait-status words and random words "
+        "with event bits through the exported container conversion, ptraceHandle.handle on generated (state, pid, word) triples, checkUsage, "
+        "and real runs of exit(n) / every default-fatal signal / synchronous faults / external SIGKILL in the ptrace, namespace and container "
+        "(sync before and after exec) runners, each compared with the model evaluated in Coq and with the README table.",
+   note="Trusted: Coq kernel + vm_compute (finite sweeps over 256 exit codes / 127 signals are lifted with forallb_forall, bounds in the "
+        "statements); kernel rules: the wait-status encoding, signal-delivery stops of traced tasks (PT5), a pid-namespace init ignores "
+        "self-sent default-action signals (so the namespace runner is exercised with faults and external SIGKILL only). The exit value of "
+        "TLE/OLE/Disallowed verdicts is not defined by the table and not compared by the oracle.",
+   technique="Coq proof (finite sweeps lifted to universally quantified statements + case analysis) + in-Coq differential evaluation + real runs",
+   design="§5 C09"),
  "C18": dict(
    text="Theorems in Coq about an executable model of FileSet.IsInSetSmart, the FileSets cascade, Handler.Check* and SyscallCounter: "
         "C18_smart_iff / C18_smart_general characterise the matcher for every set and every path (unbounded length and depth) against the "
